@@ -126,7 +126,7 @@ def lex_auger(root, out):
         d.setdefault(t[i], {}).setdefault(t[i + 1], []).append(t[i + 2])
     os.makedirs(os.path.join(out, "auger"), exist_ok=True)
     for z, recs in d.items():
-        dump(recs, os.path.join(out, "auger", "Z%03d.json" % int(z)))
+        dump(recs, os.path.join(out, "auger", "Z%d.json" % int(z)))
     dump(sorted(int(z) for z in d), os.path.join(out, "auger", "index.json"))
 
 
@@ -147,7 +147,7 @@ def lex_spline(root, out):
             n = int(t[i]); i += 1; z += 1
             rows = t[i:i + 3 * n]; i += 3 * n
             dump({"N": n, "x": rows[0::3], "y": rows[1::3], "y2": rows[2::3]},
-                 os.path.join(out, "spline", q, "Z%03d.json" % z))
+                 os.path.join(out, "spline", q, "Z%d.json" % z))
             idx[q].append(n)
             if q == "CS_Energy" and z >= nz: break
     dump(idx, os.path.join(out, "spline", "index.json"))
@@ -169,7 +169,7 @@ def lex_compton(root, out):
             part2[str(k)] = t[i:i + npz]; i += npz
         occ[str(z)] = u
         dump({"NS": ns, "N": npz, "occ": u, "x": pz, "y": tot, "y2": tot2, "py": part, "py2": part2},
-             os.path.join(out, "spline", "Compton", "Z%03d.json" % z))
+             os.path.join(out, "spline", "Compton", "Z%d.json" % z))
     dump(occ, os.path.join(out, "compton_occ.json"))
 
 
@@ -190,7 +190,7 @@ def lex_kissel(root, out):
             shells[str(s)] = {"N": ns, "edge": edge, "x": r[0::3], "y": r[1::3], "y2": r[2::3]}
         occ[str(z)] = o
         dump({"N": n, "x": rows[0::3], "y": rows[1::3], "y2": rows[2::3], "occ": o, "shells": shells},
-             os.path.join(out, "spline", "Kissel", "Z%03d.json" % z))
+             os.path.join(out, "spline", "Kissel", "Z%d.json" % z))
         idx.append(n)
     dump(occ, os.path.join(out, "kissel_occ.json"))
     dump(idx, os.path.join(out, "spline", "kissel_index.json"))
